@@ -1268,6 +1268,77 @@ fn c14_checkpoint_vs_compaction(dir: PathBuf) -> ScenFut<'static> {
     })
 }
 
+/// restore_from_checkpoint runs while a commit is between its commit-log write and its apply.
+fn c14_restore_with_commit_in_flight(dir: PathBuf) -> ScenFut<'static> {
+    Box::pin(async move {
+        let res = std::thread::spawn(move || -> Result<(), String> {
+            let rt = tokio::runtime::Builder::new_multi_thread().worker_threads(4).enable_all().build().map_err(|e| e.to_string())?;
+            rt.block_on(async move {
+                let cfg = base_cfg();
+                let t = std::sync::Arc::new(cfg.open(&dir.join("src")).map_err(|e| e.to_string())?);
+                let ck = dir.join("ck");
+                for i in 0..4u8 {
+                    put(&t, &[(format!("pre{i}").as_bytes(), b"v")]).await?;
+                }
+                t.create_checkpoint(&ck).map_err(|e| e.to_string())?;
+                for i in 0..6u8 {
+                    put(&t, &[(format!("later{i}").as_bytes(), b"v")]).await?;
+                }
+                let ctl = crate::e3::ctl();
+                ctl.reset();
+                let gate = ctl.arm_gate("commit.after_wal");
+                let tc = t.clone();
+                let h = tokio::runtime::Handle::current();
+                let committer = std::thread::spawn(move || h.block_on(async move { put(&tc, &[(b"ghost", b"from-the-discarded-timeline")]).await }));
+                if !gate.wait_parked(5000) {
+                    gate.release();
+                    let _ = committer.join();
+                    ctl.reset();
+                    return Err("harness: the commit did not reach commit.after_wal".into());
+                }
+                // the restore may wait for the commit in flight or not: issue it from a helper
+                let (tr, ckr) = (t.clone(), ck.clone());
+                let h2 = tokio::runtime::Handle::current();
+                let restorer = std::thread::spawn(move || {
+                    let _g = h2.enter();
+                    tr.restore_from_checkpoint(&ckr).map(|_| ()).map_err(|e| e.to_string())
+                });
+                std::thread::sleep(std::time::Duration::from_millis(200));
+                gate.release();
+                let rc = committer.join().map_err(|_| "committer panicked".to_string())?;
+                restorer.join().map_err(|_| "restore thread panicked".to_string())?.map_err(|e| format!("restore failed: {e}"))?;
+                ctl.reset();
+                let ghost = get1(&t, b"ghost")?;
+                let later = get1(&t, b"later0")?;
+                // two overlapping writers of one key on the restored store
+                let mut a = t.begin().map_err(|e| e.to_string())?;
+                let mut b = t.begin().map_err(|e| e.to_string())?;
+                a.set(&b"k"[..], &b"a"[..]).map_err(|e| e.to_string())?;
+                b.set(&b"k"[..], &b"b"[..]).map_err(|e| e.to_string())?;
+                let ra = a.commit().await;
+                let rb = b.commit().await;
+                drop(a);
+                drop(b);
+                let fresh = get1(&t, b"k")?;
+                if let Ok(t) = std::sync::Arc::try_unwrap(t) {
+                    close(t).await;
+                }
+                let what = format!("checkpoint; 6 more commits; a commit of `ghost` is held between its commit-log write and its apply while restore_from_checkpoint runs (the commit then returns {})", match &rc { Ok(()) => "Ok".to_string(), Err(e) => format!("an error: {e}") });
+                if ghost.is_some() || later.is_some() {
+                    return Err(format!("{what}: after the restore, ghost present: {}, later0 present: {} - the restored state holds writes made after the checkpoint", ghost.is_some(), later.is_some()));
+                }
+                if ra.is_ok() && rb.is_ok() {
+                    return Err(format!("{what}: afterwards two transactions that overlap and both write k both commit (k = {:?}): the visible sequence number was raised above the rewound commit counter, so new horizons lie above every new conflict stamp", fresh.map(|v| String::from_utf8_lossy(&v).to_string())));
+                }
+                Ok(())
+            })
+        })
+        .join()
+        .map_err(|_| "scenario thread panicked".to_string())?;
+        res
+    })
+}
+
 fn c14_version_index_not_restored(dir: PathBuf) -> ScenFut<'static> {
     Box::pin(async move {
         let cfg = ver_cfg(true);
@@ -1785,6 +1856,47 @@ fn c17_cursor_view_vs_flush_install(dir: PathBuf) -> ScenFut<'static> {
                 }
                 Ok(())
             })
+        })
+        .join()
+        .map_err(|_| "scenario thread panicked".to_string())?;
+        res
+    })
+}
+
+/// Commits alternate with checkpoints (each checkpoint flushes the memtable into a new L0
+/// table); the store's own background tasks are running.
+fn c17_checkpoints_fill_l0(dir: PathBuf) -> ScenFut<'static> {
+    Box::pin(async move {
+        let res = std::thread::spawn(move || -> Result<(), String> {
+            let rt = tokio::runtime::Builder::new_multi_thread().worker_threads(4).enable_all().build().map_err(|e| e.to_string())?;
+            surrealkv::verif::set_manual_background(false);
+            let r = rt.block_on(async move {
+                let cfg = Cfg { level_count: 3, l0_max_files: 2, l0_stall: 4, memtable_stall: 4, max_bytes_for_level: 1 << 20, ..base_cfg() };
+                let t = std::sync::Arc::new(cfg.open(&dir.join("src")).map_err(|e| e.to_string())?);
+                for i in 0..12u32 {
+                    let tc = t.clone();
+                    let k = format!("k{i:02}").into_bytes();
+                    let c = tokio::spawn(async move { put(&tc, &[(&k[..], b"v")]).await });
+                    match tokio::time::timeout(std::time::Duration::from_secs(20), c).await {
+                        Ok(r) => r.map_err(|e| e.to_string())??,
+                        Err(_) => {
+                            let l0 = t.verif_layout().map(|l| l.tables.iter().filter(|x| x.level == 0).count()).unwrap_or(0);
+                            return Err(format!(
+                                "small commits alternate with create_checkpoint (write-stall threshold: 4 L0 tables; background tasks running): commit #{i} has not returned after 20 s - {l0} tables sit in L0, every checkpoint added one by flushing the memtable itself, and nothing wakes the compaction task or the stalled writer"
+                            ));
+                        }
+                    }
+                    let ck = dir.join(format!("ck{i}"));
+                    t.create_checkpoint(&ck).map_err(|e| format!("create_checkpoint: {e}"))?;
+                    let _ = std::fs::remove_dir_all(&ck);
+                }
+                if let Ok(t) = std::sync::Arc::try_unwrap(t) {
+                    close(t).await;
+                }
+                Ok(())
+            });
+            surrealkv::verif::set_manual_background(true);
+            r
         })
         .join()
         .map_err(|_| "scenario thread panicked".to_string())?;
@@ -2446,6 +2558,59 @@ fn c10_wide_version_index(dir: PathBuf) -> ScenFut<'static> {
     })
 }
 
+/// The version index grows over several sessions: every session flushes a few hundred versions
+/// (leaf splits, new pages), closes and reopens.
+fn c07_version_index_grows_across_reopens(dir: PathBuf) -> ScenFut<'static> {
+    Box::pin(async move {
+        for index in [true, false] {
+            let d = dir.join(if index { "index" } else { "lsm" });
+            let cfg = Cfg { max_memtable_size: 4 << 20, ..ver_cfg(index) };
+            let n = 150usize;
+            for session in 0..4u64 {
+                let t = cfg.open(&d).map_err(|e| format!("version index {}: open of session {session} fails: {e}", if index { "on" } else { "off" }))?;
+                // two new versions of every key in this session
+                for v in 0..2u64 {
+                    let ts = 10 + session * 20 + v * 10;
+                    for chunk in (0..n).collect::<Vec<_>>().chunks(50) {
+                        let mut tx = t.begin_with_mode(Mode::WriteOnly).map_err(|e| e.to_string())?;
+                        for i in chunk {
+                            tx.set_at(format!("key{:04}", i).as_bytes(), format!("key{:04}@{}-{}", i, ts, "v".repeat(40)).as_bytes(), ts).map_err(|e| e.to_string())?;
+                        }
+                        tx.commit().await.map_err(|e| e.to_string())?;
+                    }
+                    t.verif_flush().map_err(|e| format!("flush in session {session}: {e}"))?;
+                }
+                // everything written so far, in this and in earlier sessions
+                for i in (0..n).step_by(7) {
+                    let k = format!("key{:04}", i).into_bytes();
+                    for s2 in 0..=session {
+                        for v in 0..2u64 {
+                            let ts = 10 + s2 * 20 + v * 10;
+                            let got = get_at(&t, &k, ts + 5).await.map_err(|e| format!("version index {}: session {session}: get_at(key{:04}, {}) fails: {e}", if index { "on" } else { "off" }, i, ts + 5))?;
+                            let want = format!("key{:04}@{}-{}", i, ts, "v".repeat(40)).into_bytes();
+                            if got.as_deref() != Some(&want[..]) {
+                                close(t).await;
+                                return Err(format!(
+                                    "version index {}: {} keys get two flushed versions per session, with a close and reopen between sessions; in session {session}, get_at(key{:04}, {}) = {:?}, expected the version written at {} in session {s2}",
+                                    if index { "on" } else { "off" },
+                                    n,
+                                    i,
+                                    ts + 5,
+                                    got.map(|v| String::from_utf8_lossy(&v[..v.len().min(16)]).to_string()),
+                                    ts
+                                ));
+                            }
+                        }
+                    }
+                }
+                close(t).await;
+            }
+            let _ = std::fs::remove_dir_all(&d);
+        }
+        Ok(())
+    })
+}
+
 fn c07_crash_during_wal_repair(dir: PathBuf) -> ScenFut<'static> {
     Box::pin(async move {
         let cfg = base_cfg();
@@ -2867,6 +3032,12 @@ pub fn all() -> Vec<Scenario> {
             run: c19_dropped_outside_runtime,
         },
         Scenario {
+            id: "C07-version-index-grows-across-reopens",
+            property: "C07",
+            title: "versioned store (both back-ends): each of four sessions flushes 300 new versions, then close and reopen",
+            run: c07_version_index_grows_across_reopens,
+        },
+        Scenario {
             id: "C16-filter-block-unchecked",
             property: "C16",
             title: "every byte of a small table file altered in turn, then point lookups of all stored keys",
@@ -2895,6 +3066,12 @@ pub fn all() -> Vec<Scenario> {
             property: "C17",
             title: "reader between the two locks of its cursor view while a flush sits between the two locks of its table installation",
             run: c17_cursor_view_vs_flush_install,
+        },
+        Scenario {
+            id: "C17-checkpoints-fill-l0",
+            property: "C17",
+            title: "commits alternating with checkpoints, each of which flushes the memtable into L0 itself",
+            run: c17_checkpoints_fill_l0,
         },
         Scenario {
             id: "C17-stall-signal-at-yield-point",
@@ -2967,6 +3144,12 @@ pub fn all() -> Vec<Scenario> {
             property: "C14",
             title: "compaction rounds complete while create_checkpoint sits between copying the tables and copying the manifest",
             run: c14_checkpoint_vs_compaction,
+        },
+        Scenario {
+            id: "C14-restore-with-commit-in-flight",
+            property: "C14",
+            title: "restore_from_checkpoint while a commit sits between its commit-log write and its apply",
+            run: c14_restore_with_commit_in_flight,
         },
         Scenario {
             id: "C14-vlog-writer-after-restore",
